@@ -151,13 +151,31 @@ class Sim:
         self.stats["steps"] += 1
         op = st["op"]
         ev = {"i": i, "op": op}
-        if op.startswith("U_"):
+        if op == "mutate":
+            self.step_mutate(st, ev)
+        elif op.startswith("U_"):
             self.step_U(st, ev, i)
         else:
             self.step_A(st, ev, i)
         self.events.append(ev)
         self.sig.append((op, ev.get("res"), ev.get("fired")))
         return ev
+
+    def step_mutate(self, st, ev):
+        """The user overwrites one of their data objects in place (a reused buffer)."""
+        obj = self.ds_obj.get(st["d"])
+        if obj is None or self.ds_spec[st["d"]].get("bad"):
+            ev["noop"] = True
+            return
+        new = np.array(st["values"], dtype=float)
+        if isinstance(obj, pd.Series):
+            obj.iloc[:] = new.reshape(-1)
+        else:
+            obj.iloc[:, :] = new.reshape(obj.shape)
+        if isinstance(self.lin, list) and any(ch is obj for ch, _ in self.lin):
+            self.lin = UNSPEC
+        self.probe("dataset_mutated_in_place")
+        ev["res"] = "ok"
 
     # ---------------------------------------------------------------- user's steps
     def step_U(self, st, ev, i):
@@ -485,6 +503,11 @@ def gen_step(rng, sim, cfg, datasets):
         ops = [("A_predict", 40), ("A_fit", 10), ("A_update", 7), ("U_fit", 12), ("U_predict", 12), ("U_set_params", 5), ("A_set_params", 4), ("A_clone", 1)]
     else:
         ops = [("A_fit", 50), ("A_predict", 8), ("U_fit", 12), ("U_predict", 10), ("U_set_params", 6), ("A_set_params", 5), ("A_update", 2)]
+    if rng.random() < 0.04:
+        d = good[int(rng.integers(len(good)))]
+        vals = datasets[d]["values"]
+        intdata = all(float(v[0]).is_integer() for v in vals if v[0] is not None)
+        return {"op": "mutate", "d": d, "values": [[float(v)] for v in gen_x(rng, len(vals), intdata)]}
     names = [o for o, _ in ops]
     w = np.array([x for _, x in ops], float)
     op = names[int(rng.choice(len(names), p=w / w.sum()))]
